@@ -83,6 +83,7 @@ def worker_main(modname: str, shard_path: str, out_path: str) -> int:
     t0 = time.monotonic()
     budget = float(os.environ.get("VERIF_SHARD_BUDGET", "1e9"))
     skipped = 0
+    t_last_part = t0
     for i, case in enumerate(cases):
         if time.monotonic() - t0 > budget:
             skipped = len(cases) - i
@@ -94,7 +95,8 @@ def worker_main(modname: str, shard_path: str, out_path: str) -> int:
                  "trace": traceback.format_exc()[-3000:]}
         r["case"] = case
         results.append(r)
-        if i % 20 == 0:
+        if i % 20 == 0 or time.monotonic() - t_last_part > 30:
+            t_last_part = time.monotonic()
             with open(out_path + ".part", "w") as f:
                 json.dump({"results": results, "skipped": 0, "partial": True}, f, default=_jsonable)
     with open(out_path, "w") as f:
@@ -199,6 +201,14 @@ def main(argv=None) -> int:
     hooks = Counter()
     events = 0
     samples = []
+    # a time-boxed run that did not get through all its cases is a coverage shortfall, not a verdict problem, as long as most cases ran;
+    # a worker that had to be killed (a case that never ends) stays inconclusive
+    budget_notes = [p_ for p_ in problems if "budget exhausted" in p_]
+    hard = [p_ for p_ in problems if "budget exhausted" not in p_]
+    coverage_notes = []
+    if budget_notes and len(results) >= 0.5 * len(cases):
+        coverage_notes = budget_notes
+        problems = hard
     inconclusive = list(problems)
     vio_by_sig: dict[str, list] = {}
     extra_merge: dict = {}
@@ -282,7 +292,8 @@ def main(argv=None) -> int:
         "known_findings_seen": {s: len(vs) for s, (k, vs) in known_seen.items()},
         "new_violation_signatures": {s: len(vs) for s, vs in new_vios.items()},
         "inconclusive_reasons": inconclusive[:20],
-        "exhaustive": exhaustive,
+        "time_box_notes": coverage_notes[:20],
+        "exhaustive": exhaustive and not coverage_notes,
     }
     coverage.update({k: v for k, v in extra_merge.items() if k not in coverage})
     coverage.update(cov_extra)
@@ -304,6 +315,8 @@ def main(argv=None) -> int:
         print(ln)
     print(f"[{pid}] tier={tier} seed={seed} cases={len(results)}/{len(cases)} evaluations={evaluations} "
           f"distinct={len(distinct)} events={events} hooks={dict(hooks)} wall={ev['wall_s']}s")
+    for n_ in coverage_notes[:4]:
+        print(f"NOTE property={pid} time box reached: {n_}")
     if new_vios:
         return 1
     if inconclusive:
